@@ -263,6 +263,7 @@ def query_cases(run, T):
                   "SELECT * FROM x1", "SELECT *, x1 FROM x2", "SELECT * EXCEPT SELECT x1", "SELECT * EXCEPT (x1) FROM x2",
                   "SELECT * ILIKE 's1' FROM x2", "SELECT x1, * FROM x2", "SELECT x1 * FROM x2", "SELECT DISTINCT * FROM x1",
                   "SELECT ALL x1", "SELECT ALL DISTINCT x1", "SELECT DISTINCT ALL x1", "SELECT AS x1", "SELECT",
+                  "SELECT ALL ALL x1", "SELECT ALL ALL", "SELECT DISTINCT DISTINCT x1",
                   "SELECT x1 FROM (x2)", "SELECT x1 FROM (x2) AS x3", "SELECT x1 FROM ((SELECT x2))", "SELECT x1 FROM (SELECT x2) AS x3 (x4)",
                   "SELECT x1 FROM x2 (x3)", "SELECT x1 FROM x2-x3", "SELECT x1 FROM x2 - x3", "SELECT x1 FROM UNNEST", "SELECT x1 FROM UNNEST(x2)",
                   "SELECT x1 FROM 's1'", "SELECT x1 's1'", "SELECT x1 AS 's1'", "SELECT x1 1", "SELECT x1 FROM x2 1", "SELECT x1 FROM 1",
@@ -528,7 +529,9 @@ def check_query(run, prop="C01", tables=None):
             good = again.get("same") is True and again.get("rest") == 0 and again.get("text2") == rs["text"]
             if not good:
                 stats["impl_roundtrip_fail"] += 1
-                report("impl-roundtrip", {"what": "an accepted query does not survive parse -> print -> parse", "dialect": c["dialect"],
+                # Display never prints the ALL quantifier: `SELECT ALL` in the printed text is an identifier spelled ALL
+                key = "select-all-identifier" if re.search(r"\bSELECT ALL\b", rs["text"]) else "impl-roundtrip"
+                report(key, {"what": "an accepted query does not survive parse -> print -> parse", "dialect": c["dialect"],
                                           "input": c["sql"], "printed": rs["text"],
                                           "reparse": {k: again.get(k) for k in ("same", "err", "tokerr", "panic", "text2", "rest")}})
         elif "tokerr" not in rs:
